@@ -78,6 +78,11 @@ def _pool_call(d, name, enc, seed, X, y, K, b, cand=None):
         return P.CoreSet(missing_label=m, random_state=seed).query(X, y, candidates=cand, batch_size=b, return_utilities=True)
     if name == "GreedySamplingX":
         return P.GreedySamplingX(missing_label=m, random_state=seed).query(X, y, candidates=cand, batch_size=b, return_utilities=True)
+    if name == "QueryByCommittee[vote_entropy]":
+        # hard votes of the members are class labels: strings under the string encodings
+        ens = [_stub_clf(d, enc, K, gen=1), _stub_clf(d, enc, K, gen=2)]
+        return P.QueryByCommittee(method="vote_entropy", missing_label=m, random_state=seed).query(
+            X, y, ens, fit_ensemble=False, candidates=cand, batch_size=b, return_utilities=True)
     if name == "QueryByCommittee":
         ens = [_stub_clf(d, enc, K, gen=1), _stub_clf(d, enc, K, gen=2)]
         return P.QueryByCommittee(missing_label=m, random_state=seed).query(X, y, ens, fit_ensemble=False, candidates=cand,
@@ -429,6 +434,7 @@ def _cfg_pool(tier):
                         "ProbabilisticAL[metric=rbf]") and tier == "quick" and encs != PAIRS_Q[0]:
                 continue
             out.append(dict(name=name, n=3, K=2, encs=encs, b=2))
+    out.append(dict(name="QueryByCommittee[vote_entropy]", n=2, K=2, encs=["float_nan", "str_nan"], b=1))
     # candidates as feature rows, incl. fully labeled label arrays (whose string dtype is narrower than the sentinel)
     for name in ("CoreSet", "GreedySamplingX", "UncertaintySampling[least_confident]", "RandomSampling"):
         for encs in ([PAIRS_Q[1]] if tier == "quick" else PAIRS_Q):
